@@ -655,6 +655,23 @@ func (c *Conn) handleCall(ctx context.Context, call rpccp.Call, releaseCall capn
 			releaseCall()
 			return errorf("incoming call: use of unknown or finished answer ID %d for promised answer target", p.target.promisedAnswer)
 		}
+		if tgtAns.flags&(returning|resultsReady) == returning {
+			// The target call has returned but its results are not
+			// published yet (see answer.Return).  Wait for them: the
+			// pipeline caller can no longer be used.
+			ready := tgtAns.ready
+			c.unlockSender()
+			c.mu.Unlock()
+			<-ready
+			c.mu.Lock()
+			if err := c.tryLockSender(ctx); err != nil {
+				// Shutting down.  Don't report.
+				c.mu.Unlock()
+				clearCapTable(call.Message())
+				releaseCall()
+				return nil
+			}
+		}
 		if tgtAns.flags&resultsReady != 0 {
 			// Results ready.
 			if tgtAns.err != nil {
